@@ -462,6 +462,23 @@ def run(ctx):
     # is awaited, never read again from the AW channel after aw.ready was given
     from .c14 import _axi_lite_port_address
     _axi_lite_port_address(ctx, "B13")
+    # ================================================================ B2 (ext.) self-resetting converter FSMs
+    # the down-converter halves reset their FSM "when the master breaks a request": the reset must not be able to fire while the FSM
+    # itself offers a response to the master (valid would be withdrawn before ready -- the response is lost, the narrow side hangs) nor
+    # while the request it serves is still presented: reset => ~V for every master-side valid V the machine raises, and => ~request
+    for cls_, reqs in (("_AXILiteDownConverterRead", ("master.ar.valid",)), ("_AXILiteDownConverterWrite", ("master.aw.valid", "master.w.valid"))):
+        fxr = fx_of(ctx, AL, cls_)
+        rst = [a for a in fxr.assigns if a.t.endswith("fsm.reset") and a.domain == "comb"]
+        offered = sorted({a.t for a in fxr.find(domain="comb") if a.state and a.t.startswith("master.") and a.t.endswith(".valid") and a.v != "0"})
+        ctx.ob("B2", AL, cls_, "self-reset:present", len(rst) == 1 and bool(offered), f"{len(rst)} reset driver(s), valids offered: {offered}", 0)
+        for a in rst:
+            R = B.And(a.eff(), B.from_expr(a.value))
+            for vname in offered + list(reqs):
+                ok = B.entails(R, B.Not(B.A(vname)))
+                ctx.ob("B2", AL, cls_, f"FSM reset cannot fire while {vname} is up", ok,
+                       "" if ok else f"fsm.reset <= {a.v}: the machine is reset while {vname} is still "
+                                     f"{'offered: the response is withdrawn before the master took it' if vname in offered else 'presented'}", a.line)
+
     # ================================================================ B12 AXI-Lite down-converter lanes
     ctx.rule("B12", "AXI-Lite down-converter: sub-word `counter` of the wide word goes to / comes from narrow address addr + counter * "
                     "(narrow bytes): write data / strobes taken from lane counter (bounds evaluated numerically), read data shifted in "
